@@ -151,9 +151,7 @@ func (s *SidecarInjector) Mutate(pod *v1.Pod, namespace string) (*v1.Pod, error)
 	// Add env variables to the Pod's primary container.
 	// We add this function because of push-based metrics collection function `report_metrics` in Python SDK.
 	// Currently, we only pass the Trial name as env variable `KATIB_TRIAL_NAME` to the training container.
-	if err := mutatePodEnv(mutatedPod, trial); err != nil {
-		return nil, err
-	}
+	envErr := mutatePodEnv(mutatedPod, trial)
 
 	// Do the following mutation only for the Primary pod.
 	// If PrimaryPodLabel is not set we mutate all pods which are related to Trial job.
@@ -165,6 +163,11 @@ func (s *SidecarInjector) Mutate(pod *v1.Pod, namespace string) (*v1.Pod, error)
 	// If Metrics Collector is Push, skip the mutation.
 	if trial.Spec.MetricsCollector.Collector.Kind == common.PushCollector {
 		return mutatedPod, nil
+	}
+
+	// Only the pod that gets the metrics collector must contain the primary container.
+	if envErr != nil {
+		return nil, envErr
 	}
 
 	// Create metrics sidecar container spec
